@@ -162,6 +162,29 @@ fn main() {
                 let sty = |rng: &mut Rng| *rng.pick(&[RuleType::Silent, RuleType::Silent, RuleType::Normal, RuleType::Atomic]);
                 if rng.chance(1, 3) { let e = if strict_g { Expr::Str(" ".into()) } else { skip_body(&mut rng, " ", &names) }; let ty = sty(&mut rng); rules.push(Rule { name: "WHITESPACE".into(), ty, expr: e }); }
                 if rng.chance(1, 4) { let e = if strict_g { Expr::Str("#".into()) } else { skip_body(&mut rng, "#", &names) }; let ty = sty(&mut rng); rules.push(Rule { name: "COMMENT".into(), ty, expr: e }); }
+                // rules reached first inside an atomic rule and later from skipping code: WHITESPACE goes through a non-atomic
+                // rule `n` into a chain of plain rules, each also referenced (earlier) from an atomic probe; the end of the chain
+                // may or may not come back to WHITESPACE through an implicit skip (what is known about a rule in one skipping
+                // mode says nothing about the other)
+                if !strict_g && rng.chance(1, 20) {
+                    let k = rng.range(1, 3);
+                    let s = |x: &str| Expr::Str(x.to_string());
+                    let id = |x: String| Expr::Ident(x);
+                    let mut rs: Vec<Rule> = vec![];
+                    rs.push(Rule { name: "WHITESPACE".into(), ty: RuleType::Silent, expr: if rng.chance(1, 2) { Expr::Choice(bx(s(" ")), bx(id("n".into()))) } else { Expr::Seq(bx(id("n".into())), bx(s(" "))) } });
+                    let entry = |rng: &mut Rng, i: usize| -> Expr { if rng.chance(2, 3) { Expr::Choice(bx(id(format!("at{}", i))), bx(id(format!("p{}", i)))) } else { id(format!("p{}", i)) } };
+                    let e0 = entry(&mut rng, 0);
+                    rs.push(Rule { name: "n".into(), ty: *rng.pick(&[RuleType::NonAtomic, RuleType::NonAtomic, RuleType::Normal]), expr: e0 });
+                    for i in 0..k {
+                        rs.push(Rule { name: format!("at{}", i), ty: *rng.pick(&[RuleType::Atomic, RuleType::Atomic, RuleType::CompoundAtomic]), expr: Expr::Seq(bx(id(format!("p{}", i))), bx(s("1"))) });
+                        let body = if i + 1 < k { entry(&mut rng, i + 1) } else { match rng.below(6) {
+                            0 | 1 => Expr::Seq(bx(Expr::Opt(bx(s("a")))), bx(s("b"))), 2 => Expr::Seq(bx(s("a")), bx(s("b"))), 3 => Expr::RepMax(bx(s("a")), 2),
+                            4 => Expr::Seq(bx(Expr::NegPred(bx(s("a")))), bx(s("b"))), _ => Expr::Seq(bx(Expr::Rep(bx(s("a")))), bx(s("b"))) } };
+                        rs.push(Rule { name: format!("p{}", i), ty: *rng.pick(&[RuleType::Normal, RuleType::Normal, RuleType::Silent]), expr: body });
+                    }
+                    if rng.chance(1, 2) { rs.rotate_left(1); }   // WHITESPACE first or last
+                    rules = rs;
+                }
                 let l = format!("L {} {}", EXTRAS as u8, show_rules(&rules));
                 let v = verdict(&rules);
                 *stats.entry(if v == "ok" { "accepted".into() } else if v.starts_with("err") { "rejected".to_string() } else { v.clone() }).or_default() += 1;
